@@ -17,6 +17,20 @@ type genFile struct {
 var files = []genFile{
 	{"Numeric.lean", genNumeric},
 	{"NumericSimp.lean", genNumericSimp},
+	{"Tokens.lean", genTokens},
+	{"Fold.lean", genFold},
+	{"Unary.lean", genUnary},
+	{"JsonTables.lean", genJsonTables},
+	{"SymFacts.lean", genSymFacts},
+	{"ConvReg.lean", genConvReg},
+	{"Conv.lean", genConv},
+	{"Opcodes.lean", genOpcodes},
+	{"AbortOps.lean", genAbortOps},
+	{"VmFields.lean", genVmFields},
+	{"Adapters.lean", genAdapters},
+	{"EncTags.lean", genEncTags},
+	{"EncBuiltins.lean", genEncBuiltins},
+	{"EncDispatch.lean", genEncDispatch},
 }
 
 func main() {
